@@ -28,7 +28,8 @@ Print Assumptions C18_unpack_error_is_first.
 (* The same for ANY tables that pass the decidable check [tables_ok] (this is the lemma a changed
    Gen.v has to satisfy), for the list-valued kinds. *)
 Theorem C18_any_ok_tables : forall tb k align addr bs n,
-  tables_ok tb = true -> wf_kind k -> is_char k = false -> 0 <= n -> addr <> 0 ->
+  tables_ok tb = true -> wf_kind k -> is_char k = false -> 0 <= n ->
+  n * ksize k <= Z.of_nat (length bs) -> addr <> 0 ->
   unpack tb k align addr bs n = joined k (elementwise k addr bs n).
 Proof. exact unpack_elementwise_list. Qed.
 Print Assumptions C18_any_ok_tables.
@@ -39,18 +40,29 @@ Print Assumptions C18_generated_tables_ok.
 
 (* char16_t: equal when no high surrogate is immediately followed by a low surrogate ... *)
 Theorem C18_char16_no_pair : forall align addr bs n,
-  0 <= n -> addr <> 0 -> count_surrogates (units 2 bs (Z.to_nat n)) = 0 ->
+  0 <= n -> n * 2 <= Z.of_nat (length bs) -> addr <> 0 ->
+  count_surrogates (units 2 bs (Z.to_nat n)) = 0 ->
   unpack gen_tables (KChar 2) align addr bs n = joined (KChar 2) (elementwise (KChar 2) addr bs n).
 Proof. intros. apply unpack_elementwise_char16; assumption. Qed.
 Print Assumptions C18_char16_no_pair.
 
 (* ... always equal as UTF-16 text (same code units) ... *)
 Theorem C18_char16_same_utf16 : forall align addr bs n,
-  0 <= n -> addr <> 0 ->
+  0 <= n -> n * 2 <= Z.of_nat (length bs) -> addr <> 0 ->
   utf16 (unpack gen_tables (KChar 2) align addr bs n)
   = utf16 (joined (KChar 2) (elementwise (KChar 2) addr bs n)).
 Proof. intros. apply unpack_elementwise_char16_utf16; assumption. Qed.
 Print Assumptions C18_char16_same_utf16.
+
+(* Every statement above is about n items INSIDE the memory (n * itemsize <= length bs) at a non-NULL
+   address.  Outside, the model makes no claim: a read past the end of the modelled memory is the
+   explicit error OutOfModel for ffi.unpack and for p[i] alike. *)
+Theorem C18_out_of_model_is_an_error : forall tb k align addr bs n,
+  0 <= n -> addr <> 0 -> 0 <= ksize k -> Z.of_nat (length bs) < n * ksize k ->
+  unpack tb k align addr bs n = RErr OutOfModel /\
+  index k addr bs (n - 1) = Err OutOfModel.
+Proof. exact unpack_out_of_model. Qed.
+Print Assumptions C18_out_of_model_is_an_error.
 
 (* ... but not equal as Python str in general: unpack joins a surrogate pair into one code point,
    p[i] returns the two surrogates (finding "char16_pair", inherent to UTF-16) *)
